@@ -75,7 +75,7 @@ Proof.
   intros H. inversion H. auto.
 Qed.
 
-Lemma tls_branch_admit now required c u l iat :
+Lemma tls_branch_accept now required c u l iat :
   tls_branch true true now required c = Some (Admit u l iat) ->
   u = x_cn c /\ u <> 0 /\ l = tls_level required c /\ iat = tls_iat now required c /\
   hasb l required = true /\
@@ -111,7 +111,7 @@ Proof.
   - apply Z.ltb_ge in E. exact E.
 Qed.
 
-Lemma cookie_branch_admit now lim required cr u l iat :
+Lemma cookie_branch_accept now lim required cr u l iat :
   cookie_branch now lim required cr = Admit u l iat ->
   hasb l required = true /\
   ((exists t, cr = Cookie t /\ valid_cookie now t /\ u = t_sub t /\ l = t_level t /\ iat = t_iat t) \/
@@ -167,11 +167,11 @@ Proof.
   clear H. destruct Hpass as [Ht|Hc].
   - destruct (q_tls q) as [c|] eqn:TL; [|discriminate].
     destruct (hasb required (N.lor bIPCert bKMX509)); [|discriminate].
-    apply tls_branch_admit in Ht. destruct Ht as (Hu & Hu0 & Hl & Hi & Hreq & Hshape & Hkm & Hip).
+    apply tls_branch_accept in Ht. destruct Ht as (Hu & Hu0 & Hl & Hi & Hreq & Hshape & Hkm & Hip).
     split; [exact Hreq|]. split.
     + right. right. exists c. splits; auto.
     + right. right. exists c. splits; auto.
-  - apply cookie_branch_admit in Hc. destruct Hc as [Hreq [[t (E & V & Eu & El & Ei)]|[berr (E & El & Ei)]]].
+  - apply cookie_branch_accept in Hc. destruct Hc as [Hreq [[t (E & V & Eu & El & Ei)]|[berr (E & El & Ei)]]].
     + split; [exact Hreq|]. split.
       * left. exists t. auto.
       * left. exists t. auto.
